@@ -79,7 +79,12 @@ def gen(tier, rng, scale):
             url = "/symbolicate/v5"
             job = {"memoryMap": [[m["debugName"], m["breakpadId"]], ["x.pdb", "00000000000000000000000000000000A"]],
                    "stacks": [[[0, off], [1, 5], [0, off + 1]], []]}
-            body = {"jobs": [job, job]} if rng.chance(1, 2) else job
+            # several jobs that share libraries but ask for different addresses; the same library in two slots of one memory map
+            off2 = rng.choice(m["offsets"])
+            m2 = rng.choice(mods)
+            job2 = {"memoryMap": [["x.pdb", "00000000000000000000000000000000A"], [m["debugName"], m["breakpadId"]], [m2["debugName"], m2["breakpadId"]], [m["debugName"], m["breakpadId"]]],
+                    "stacks": [[[1, off2], [3, off2 + 3], [2, rng.choice(m2["offsets"])]], [[3, off]]]}
+            body = rng.choice([job, {"jobs": [job, job]}, {"jobs": [job, job2]}, {"jobs": [job2, job]}, job2, {"jobs": [job2, job, job2]}])
         elif kind == "src":
             url = "/source/v1"
             body = {"debugName": m["debugName"], "debugId": m["breakpadId"], "moduleOffset": hex(off), "file": rng.choice(apienv.SPECIAL_FILES)}
